@@ -211,6 +211,15 @@ func c02Case(c *fw.Case, t *pdus.Type, force, class int, g *gridCell) {
 		} else {
 			c02Recv[t.Key()] = qd
 		}
+		if len(t.Extra) > 0 {
+			// the library's own (longer) form of this PDU went through the value before: what only that form
+			// carries must be gone after the specification image has been decoded
+			lt := t.Lib()
+			ov, _ := pdus.Gen(lt, c.R, -1, 0)
+			if b0, e0 := pdus.Build(lt, ov).IEncode(); e0 == nil {
+				_ = qd.IDecode(b0)
+			}
+		}
 	}
 	derr, psig, pd := decode(c, qd, img)
 	switch {
@@ -225,6 +234,16 @@ func c02Case(c *fw.Case, t *pdus.Type, force, class int, g *gridCell) {
 		}
 		if hl := pdus.HeaderLength(t, qd); int(hl) != len(keep) {
 			c.Failf("decoded-header-length/"+t.Key(), "decoded header length %d, image has %d octets", hl, len(keep))
+		}
+		if len(t.Extra) > 0 {
+			// fields of the library's struct that the specification image does not carry read as zero afterwards
+			lt := t.Lib()
+			all := pdus.Extract(lt, qd)
+			for _, f := range t.Extra {
+				if u, ok := all.F[f.Spec].(uint64); ok && u != 0 {
+					c.Failf("decode-values/"+t.Key()+"/stale-"+f.Go, "the specification image carries no %s, the decoded value reports %d (left over from an earlier frame decoded into the same value)\nimage=%s", f.Go, u, hx(keep))
+				}
+			}
 		}
 	}
 	if g != nil {
